@@ -270,6 +270,8 @@ func pypiEnv(sx.V) sx.V {
 //   3  root -> mid[extras] -> (marker) g[zz],  g -> (extra == "zz") h              the guarded requirement enables an extra
 //   4  root -> q, root -> mid[extras], mid -> (marker) g; q 2.0 -> mid[extras2], zmissing==9 (no such version, so q 2.0
 //      is rejected after its requirement on mid was looked at), q 1.0 -> nothing: extras2 are requested by nobody in the result
+//   5  root -> helper -> root[extras], root -> (marker) g: the root is asked for twice, plainly and, through the cycle, with
+//      extras; its guarded requirement is followed when the marker holds for either request (at most one such item per root)
 // Result per root: ("err") | ("grapherr") | ("inconsistent") | ("edges" b...), b = presence of the guarded edge
 // (for shape 3 also: h hangs under g exactly when g is there).
 func markerMulti(arg sx.V) sx.V {
@@ -353,6 +355,12 @@ func markerMulti(arg sx.V) sx.V {
 				lc.AddVersion(q2, []resolve.RequirementVersion{req(mid, withExtras(extras2)), zreq})
 				rootReqs = append(rootReqs, req(q, dep.Type{}), req(mid, withExtras(extras)))
 				guards[j] = append(guards[j], edge{mid, g, ""})
+			case 5:
+				helper := "a" + sfx + "h"
+				lc.AddVersion(conc(g), nil)
+				lc.AddVersion(conc(helper), []resolve.RequirementVersion{req(rootName, withExtras(extras))})
+				rootReqs = append(rootReqs, req(helper, dep.Type{}), req(g, guardType))
+				guards[j] = append(guards[j], edge{rootName, g, ""})
 			default:
 				lc.AddVersion(conc(g), nil)
 				lc.AddVersion(conc(mid), []resolve.RequirementVersion{req(g, guardType)})
